@@ -3,6 +3,7 @@ From Coq Require Import List Arith Lia Bool PeanoNat String.
 Import ListNotations.
 Notation length := List.length.
 From SP Require Import Skel Gen Expected NetA Inv Pres Dead Top Ghost GhostPres Term Early NetTop.
+From SP Require Result TaskFS TmpInv.
 
 (* T1: runProcs starts every selected process except the driver, runs the driver in the caller and waits for all;
    Process.Run closes its out-ports on return; the select loop and the port protocol are the modelled ones *)
@@ -63,6 +64,14 @@ Proof.
   exact (final_complete c len WF s I HF).
 Qed.
 
+(* when Run returns no temp directory of the run is left: in the task / file-store machine, for every task DAG and every
+   schedule of a run that did not start on left-overs, a task that is done (executed or skipped) has no temp directory
+   and nothing in it *)
+Theorem C05_no_leftovers : forall (c : TaskFS.cfg) (f0 : Result.fs) (left0 : nat -> bool) (l : list TaskFS.act) (s : TaskFS.st),
+  (forall t, left0 t = false) -> TaskFS.run c (TaskFS.init c f0 left0) l = Some s ->
+  forall t, TaskFS.is_done (TaskFS.pcs s t) = true -> TaskFS.tdir s t = false /\ forall x, TaskFS.tmp s t x = None.
+Proof. exact TmpInv.no_leftovers. Qed.
+
 (* a process with a file port (edge 0, from source 0) and a parameter port (edge 1, from feeder 1), empty streams:
    the process sees its file port closed, leaves the loop without reading the parameter port and finishes while
    the feeder has not yet closed *)
@@ -91,5 +100,6 @@ Print Assumptions C05_no_deadlock.
 Print Assumptions C05_terminates.
 Print Assumptions C05_not_early.
 Print Assumptions C05_all_done_at_return.
+Print Assumptions C05_no_leftovers.
 Print Assumptions C05_param_feeder_may_lag.
 Print Assumptions C05_nonvacuous.
